@@ -414,6 +414,10 @@ class DoubleExponentialCurrent(SpikeMixin, InfernoSynapse):
             # retrieve most recent value
             res = self.pos_current_.peek() - self.neg_current_.peek()
 
+            # every selector of a synapse reads the same (only) observation
+            if selector.ndim == res.ndim + 1:
+                res = res.unsqueeze(-1).expand(*res.shape, selector.shape[-1])
+
         # delayed access
         else:
             # bound the selector
